@@ -283,7 +283,14 @@ func runC04(r *ev.Run) {
 						}
 						groups = append(groups, g)
 					}
-					run("builder", groups, func() ([]comet.MetadataResult, error) { return qb.Execute(idx) })
+					if rng.IntN(2) == 0 {
+						run("builder", groups, func() ([]comet.MetadataResult, error) { return qb.Execute(idx) })
+					} else {
+						built := qb.Build()
+						run("builder-build", groups, func() ([]comet.MetadataResult, error) {
+							return idx.NewSearch().WithFilterGroups(built...).Execute()
+						})
+					}
 				default: // empty filter list
 					run("empty", nil, func() ([]comet.MetadataResult, error) { return idx.NewSearch().Execute() })
 				}
